@@ -196,6 +196,12 @@ func documents() []mDoc {
 		{Name: "malformed-orphan-continuation-starts-second-paragraph", EOL: "\n", IsRaw: true, WantErr: true, Exotic: true,
 			Raw:   []byte("Source: hello\nVersion: 1.0-1\n\n Indented: value\nPackage: p\n"),
 			Paras: [][]mField{{{Key: "Source", First: "hello"}, {Key: "Version", First: "1.0-1"}}}},
+		// the same field name in different letter case, within one paragraph and across paragraphs: keys come back as written
+		{Name: "field-names-differing-in-case", EOL: "\n", Paras: [][]mField{
+			{{Key: "Version", First: "1"}, {Key: "Source", First: "a"}, {Key: "version", First: "2"}, {Key: "SOURCE", First: "b"}},
+			{{Key: "version", First: "3"}, {Key: "VERSION", First: "4"}, {Key: "Package", First: "p"}, {Key: "source", First: "c"}},
+			{{Key: "PACKAGE", First: "q"}, {Key: "Version", First: "5"}},
+		}},
 		// a non-empty line that BEGINS with a lone CR (the CR is leading blank space of the field name, not a blank line)
 		{Name: "line-begins-with-lone-cr", EOL: "\n", IsRaw: true, Exotic: true,
 			Raw:   []byte("Source: hello\n\rVersion: 1.0-1\nMaintainer: A B <a@b.example>\n\n\rPackage: p\n\r\tArchitecture: any\n"),
@@ -686,7 +692,7 @@ func check(scen string, in In) verdict {
 	// clause 6: what is accepted under a signature is parsed exactly like the same (canonical) text WITHOUT the armour —
 	// both fail, or both give the same paragraphs (the armour path has no parsing rules of its own)
 	if o.signer != "" && o.ctorErr == "" {
-		if blk, _ := clearsign.Decode(doc); blk != nil {
+		if blk, _ := clearsign.Decode(doc); blk != nil && !bytes.HasPrefix(blk.Bytes, []byte(armourPrefix)) { // (a verified text that itself starts like an armour is judged by the model: the plain path would decode it)
 			plain := observeRing(in.Entry, blk.Bytes, nil) // the same access path, no armour, no keyring
 			if plain.success() != o.success() || !parasEqual(plain.delivered, o.delivered) {
 				res.class = "unsound"
@@ -901,6 +907,32 @@ func Run(r *mc.Run) {
 		return
 	}
 	docs := documents()
+	// signed texts that ARE an armoured document (a nested / countersigned upload): inner document signed by a key outside
+	// every keyring, dash-escaped inside the outer signed text — the outer text is not control data (its first line has no
+	// colon): reading must fail, exactly as for the same text unsigned
+	if k3e, err := gen.CSNewKey("K3"); err != nil {
+		r.HarnessError("key generation failed: %v", err)
+		return
+	} else {
+		for _, eol := range []string{"\n", "\r\n"} {
+			inner, err := gen.CSClearsign(k3e, documents()[0].text(), "\n")
+			if err != nil {
+				r.HarnessError("signing the inner document: %v", err)
+				return
+			}
+			if !bytes.HasSuffix(inner, []byte("\n")) {
+				inner = append(inner, '\n')
+			}
+			if eol != "\n" {
+				inner = bytes.ReplaceAll(inner, []byte("\n"), []byte(eol))
+			}
+			sfx := map[string]string{"\n": "", "\r\n": "-crlf"}[eol]
+			docs = append(docs,
+				mDoc{Name: "nested-armoured-document-signed-by-unknown-key" + sfx, EOL: eol, IsRaw: true, WantErr: true, Exotic: true, Raw: inner},
+				mDoc{Name: "nested-armoured-document-then-more-paragraphs" + sfx, EOL: eol, IsRaw: true, WantErr: true, Exotic: true,
+					Raw: append(append([]byte{}, inner...), []byte(eol+"Source: after"+eol+"Version: 2"+eol)...)})
+		}
+	}
 	entries := []string{"reader", "reader-all", "decoder", "decoder-loop"}
 	rings := []ringSpec{{kind: "empty"}, {kind: "nil-list"}, {kind: "list", keys: []*key{K1}}, {kind: "list", keys: []*key{K2}},
 		{kind: "list", keys: []*key{K1, K2}}, {kind: "nil"}}
@@ -1155,6 +1187,7 @@ func selfCheck(r *mc.Run, docs []mDoc, signed []signedDoc, K1, K2 *key) {
 		"bytes-bom-multibyte-nul-cr-dash":   `{"\ufeffSource":"héllo" "Title":"日本 😀" "X-Nul":"a\x00b" "X-CR":"a\rb" "Née":"named with é" "-dashed":"needs dash-escaping" "X-Bom-Value":"\ufeffv" "Description":"d\n\ufeffbom on a continuation line\ntab\tinside\n\n- dash\n"}{"Package":"pé"}`,
 	}
 	lit["malformed-orphan-continuation-starts-second-paragraph"] = `{"Source":"hello" "Version":"1.0-1"}`
+	lit["field-names-differing-in-case"] = `{"Version":"1" "Source":"a" "version":"2" "SOURCE":"b"}{"version":"3" "VERSION":"4" "Package":"p" "source":"c"}{"PACKAGE":"q" "Version":"5"}`
 	lit["line-begins-with-lone-cr"] = `{"Source":"hello" "Version":"1.0-1" "Maintainer":"A B <a@b.example>"}{"Package":"p" "Architecture":"any"}`
 	lit["two-paragraphs-multiline-crlf"] = lit["two-paragraphs-multiline"]
 	lit["bytes-latin1-and-invalid-utf8-crlf"] = lit["bytes-latin1-and-invalid-utf8"]
